@@ -256,6 +256,47 @@ static void do_small(long hi)
     }
 }
 
+/* long operands (above the dense range): every single-bit and single-byte difference, opposite differences at the ends, carries through the whole length */
+static const size_t LONGL[] = { 131, 191, 255, 256, 257, 263, 264, 265, 511, 512, 513, 1023, 1024, 1025, 2048, 4095, 4096, 4097 };
+static void do_long(long idx)
+{
+    size_t len = LONGL[idx], i; int base, r, want, al = (int) (idx & 7); char key[160];
+    unsigned char *x = malloc(len + 32), *y = malloc(len + 32), *a0 = malloc(len + 32), *b0 = malloc(len + 32), *a = a0 + al, *b = b0 + ((al * 5 + 1) & 15), *d = malloc(len + 32);
+    for (base = 0; base < 3; base++) {
+        vf_pat(x, len, base == 0 ? PAT_Z : base == 1 ? PAT_F : PAT_R1, 7);
+        memcpy(a, x, len); memcpy(b, x, len); n_eval++; n_nontriv++;
+        if (sodium_memcmp(a, b, len) != 0 || sodium_compare(a, b, len) != 0) { snprintf(key, sizeof key, "long/equal/len=%zu/base=%d", len, base); vf_fail(key, "equal operands reported different"); }
+        for (i = 0; i < 8 * len; i++) {
+            if (!thorough && len > 1100 && (i >> 3) % 64 > 9 && (i >> 3) % 64 < 54 && (i >> 3) + 70 < len) continue;       /* quick: every byte lane of every 64-byte stride edge, all bytes near both ends */
+            y[i >> 3] = (unsigned char) (x[i >> 3] ^ (1u << (i & 7))); b[i >> 3] = y[i >> 3];
+            n_eval++; n_nontriv++;
+            r = sodium_memcmp(a, b, len);
+            if (r != -1) { snprintf(key, sizeof key, "sodium_memcmp/long/len=%zu/base=%d/bit=%zu", len, base, i); vf_fail(key, "got %d want -1 (operands differ in one bit of byte %zu)", r, i >> 3); }
+            want = (y[i >> 3] > x[i >> 3]) ? -1 : 1; r = sodium_compare(a, b, len);
+            if (r != want) { snprintf(key, sizeof key, "sodium_compare/long/len=%zu/base=%d/bit=%zu", len, base, i); vf_fail(key, "got %d want %d", r, want); }
+            memset(d, 0, len); d[i >> 3] = (unsigned char) (1u << (i & 7));
+            if (sodium_is_zero(d, len) != 0) { snprintf(key, sizeof key, "sodium_is_zero/long/len=%zu/bit=%zu", len, i); vf_fail(key, "a buffer with one bit set reported zero"); }
+            b[i >> 3] = x[i >> 3];
+        }
+        /* opposite differences at both ends: the most significant (last) byte decides */
+        memcpy(b, x, len); b[0] = (unsigned char) (x[0] + 1); b[len - 1] = (unsigned char) (x[len - 1] ^ 0x40); n_eval++;
+        want = b[len - 1] > x[len - 1] ? -1 : 1; r = sodium_compare(a, b, len);
+        if (r != want) { snprintf(key, sizeof key, "sodium_compare/long-ends/len=%zu/base=%d", len, base); vf_fail(key, "got %d want %d", r, want); }
+    }
+    /* carries through the whole length */
+    memset(a, 0xff, len); sodium_increment(a, len); n_eval++; n_nontriv++;
+    if (!sodium_is_zero(a, len)) { snprintf(key, sizeof key, "sodium_increment/long/len=%zu", len); vf_fail(key, "ff..ff + 1 is not zero"); }
+    memset(a, 0xff, len); memset(b, 0, len); b[0] = 1; sodium_add(a, b, len); n_eval++;
+    if (!sodium_is_zero(a, len)) { snprintf(key, sizeof key, "sodium_add/long/len=%zu", len); vf_fail(key, "ff..ff + 1 is not zero"); }
+    memset(a, 0, len); sodium_sub(a, b, len); memset(d, 0xff, len); n_eval++;
+    if (memcmp(a, d, len)) { snprintf(key, sizeof key, "sodium_sub/long/len=%zu", len); vf_fail(key, "0 - 1 is not ff..ff"); }
+    vf_pat(x, len, PAT_R1, 8); vf_pat(y, len, PAT_R2, 9); memcpy(a, x, len); memcpy(b, y, len); memcpy(d, x, len); ref_add(d, y, len); sodium_add(a, b, len); n_eval++;
+    if (memcmp(a, d, len)) { snprintf(key, sizeof key, "sodium_add/long-random/len=%zu", len); vf_fail(key, "sum differs from the reference"); }
+    memcpy(d, a, len); ref_sub(d, y, len); sodium_sub(a, b, len); n_eval++;
+    if (memcmp(a, d, len) || memcmp(a, x, len)) { snprintf(key, sizeof key, "sodium_sub/long-random/len=%zu", len); vf_fail(key, "difference differs from the reference"); }
+    free(x); free(y); free(a0); free(b0); free(d);
+}
+
 static void fin(void) { vf_stat("evaluations", n_eval); vf_stat("nontrivial", n_nontriv); }
 
 int main(void)
@@ -266,6 +307,7 @@ int main(void)
     sodium_stackzero(0); sodium_stackzero(1); sodium_stackzero(4096);
     vf_parallel(16, 0, MAXL + 1, do_len, fin);
     vf_parallel(16, 0, 512, do_small, fin);
+    vf_parallel(16, 0, (long) (sizeof LONGL / sizeof LONGL[0]), do_long, fin);
     /* memzero on larger lengths */
     { size_t l; for (l = 131; l <= 4400; l += (thorough ? 1 : 37)) memzero_case(l, (int) (l & 15)); fin(); }
     return 0;
